@@ -210,3 +210,48 @@ BENIGN = {
     "comment-and-docstring-only": [(N, "        \"\"\"Reset the network state to initial state \"\"\"", "        \"\"\"Reset the network state to the initial state.\"\"\"\n        # (comment added)")],
     "rename-local-next-state": [(H, "        next_state = self.copy()\n        if action.is_service_scan():\n            result = ActionResult(True, 0, services=self.services)\n            return next_state, result", "        next_state = self.copy()\n        if action.is_service_scan():\n            res = ActionResult(True, 0, services=self.services)\n            return next_state, res")],
 }
+
+BENIGN.update({
+    "pivot-loop-as-any": [(N, """        for src_addr in self.address_space:
+            if not state.host_compromised(src_addr):
+                continue
+            if action.is_scan() and \\
+               not self.subnets_connected(src_addr[0], action.target[0]):
+                continue
+            if action.is_exploit() and \\
+               not self.subnet_traffic_permitted(
+                   src_addr[0], action.target[0], action.service
+               ):
+                continue
+            if state.host_has_access(src_addr, action.req_access):
+                return True
+        return False
+""", """        return any(
+            state.host_compromised(src_addr)
+            and (not action.is_scan()
+                 or self.subnets_connected(src_addr[0], action.target[0]))
+            and (not action.is_exploit()
+                 or self.subnet_traffic_permitted(
+                     src_addr[0], action.target[0], action.service))
+            and state.host_has_access(src_addr, action.req_access)
+            for src_addr in self.address_space
+        )
+""")],
+    "exploit-branch-extracted": [(H, """        if action.is_exploit():
+            if self.is_running_service(action.service) and \\
+               (action.os is None or self.is_running_os(action.os)):""", """        if action.is_exploit():
+            if self._exploitable_by(action):"""), (H, """    def observe(self,
+                address=False,""", """    def _exploitable_by(self, action):
+        return self.is_running_service(action.service) and \\
+            (action.os is None or self.is_running_os(action.os))
+
+    def observe(self,
+                address=False,""")],
+    "loader-check-helper": [(L, """        assert len(subnets) > 0, "Subnets cannot be empty list\"""" + "", """        self._require(len(subnets) > 0, "Subnets cannot be empty list")"""), (L, """    def _parse_topology(self):""", """    def _require(self, cond, msg):
+        assert cond, msg
+
+    def _parse_topology(self):""")],
+    "print-logging-added": [(N, "        next_state = state.copy()\n\n        if action.is_noop():", "        next_state = state.copy()\n        if False:\n            print('performing', action)\n\n        if action.is_noop():")],
+    "action-result-keywords": [(N, "            result = ActionResult(False, 0.0, permission_error=True)\n            return next_state, result\n\n        if action.is_exploit() \\", "            result = ActionResult(success=False, value=0.0,\n                                  permission_error=True)\n            return next_state, result\n\n        if action.is_exploit() \\")],
+    "type-hints-added": [(S, "    def host_has_access(self, host_addr, access_level):", "    def host_has_access(self, host_addr: tuple, access_level: int) -> bool:")],
+})
